@@ -1,10 +1,11 @@
 """C05 — CFDP fixed PDU header.  Streams, implementation adapter, oracle."""
-import itertools
+import copy, itertools
 from harness import core
 from spacepackets.cfdp.pdu.header import PduHeader, AbstractPduBase
 from spacepackets.cfdp.conf import PduConfig
 from spacepackets.cfdp import defs as D
-from spacepackets.util import UnsignedByteField, ByteFieldGenerator
+from spacepackets.util import (UnsignedByteField, ByteFieldGenerator, ByteFieldU8, ByteFieldU16, ByteFieldU32,
+                               ByteFieldU64)
 
 ID = "C05"
 _M = "SP.Model.PduHeader."
@@ -36,8 +37,10 @@ ENUMS = [
 ]
 ASSUMPTIONS = [
     "CPython int / bytes / bytearray.append / struct / IntEnum semantics as modelled in Base/Bytes.v",
-    "the header object aliases the PduConfig it is given; the model keeps one PduConfig value inside the header "
-    "record (no second observer of the caller's object is modelled here; C11 covers constructors that copy it)",
+    "the header object aliases the PduConfig it is given (by design): the history model (Model/PduHeaderOps.v, hworld) "
+    "keeps the caller's object as a second observer that follows every write until h.pdu_conf is replaced; the three "
+    "UnsignedByteField objects are distinct objects in every generated history (one object used for two fields is not modelled)",
+    "UnsignedByteField.byte_len assignment after construction is not part of the histories (util.py / C20)",
     "ID / sequence values of widths 4 and 8 cannot be enumerated: boundaries + random on the implementation, "
     "all values in the theorems (be_encode lemmas)",
 ]
@@ -45,6 +48,7 @@ TRUSTED = ["crcmod (only for op 1208, verify_length_and_checksum; tied bitwise i
 EXPLORED_ONLY = []
 
 WIDTHS = (1, 2, 4, 8)
+OP_RANGE = (1200, 1299)
 
 
 def _e(cls, v):
@@ -86,7 +90,143 @@ def _pack_res(h):
         return [1, core.canon_code(core.classify_exception(e))]
 
 
+# ------------------------------------------------------------------ operation histories (ops 1212 / 1213)
+_UCLS = {1: ByteFieldU8, 2: ByteFieldU16, 4: ByteFieldU32, 8: ByteFieldU64}
+_FLAG_ATTR = {6: ("file_flag", "file_flag", D.LargeFileFlag), 7: ("crc_flag", "crc_flag", D.CrcFlag),
+              8: ("transmission_mode", "trans_mode", D.TransmissionMode), 9: ("direction", "direction", D.Direction),
+              10: ("seg_ctrl", "seg_ctrl", D.SegmentationControl)}
+_FIELD_ATTR = ["source_entity_id", "dest_entity_id", "transaction_seq_num"]
+
+
+def _mk_ubf(v, l, style=0):
+    """UnsignedByteField(v, l) in one of its equivalent spellings"""
+    if style == 1 and l in _UCLS:
+        return ByteFieldGenerator.from_int(l, v)
+    if style == 2 and ubf_ok(v, l):
+        return UnsignedByteField.from_bytes(v.to_bytes(l, "big"))
+    if style == 3 and l in _UCLS:
+        return _UCLS[l](v)
+    return UnsignedByteField(v, l)
+
+
+def _conf_kind(kind, ids, flags):
+    if kind == 1:
+        return PduConfig.default()
+    if kind == 2:
+        return PduConfig.empty()
+    return _conf(ids, flags)
+
+
+def _hstate(h):
+    f = _fields(h)
+    c = h.pdu_conf
+    return [f[0] + f[1] + f[2] + f[3],
+            list(c.source_entity_id.as_bytes) + list(c.transaction_seq_num.as_bytes) + list(c.dest_entity_id.as_bytes)]
+
+
+def _get(l, i, d=0):
+    return l[i] if len(l) > i else d
+
+
+def apply_hdr_op(h, l):
+    """one operation of Model/PduHeaderOps.v (hdr_op) on the header object h; returns what the call returned"""
+    k = l[0] if l else -1
+    if k == 1 and len(l) >= 2:
+        h.pdu_type = _e(D.PduType, l[1]); return []
+    if k == 2 and len(l) >= 2:
+        h.segment_metadata_flag = _e(D.SegmentMetadataFlag, l[1]); return []
+    if k == 3 and len(l) >= 2:
+        h.pdu_data_field_len = l[1]; return []
+    if k == 4 and len(l) >= 5:
+        st = _get(l, 5)
+        s_ = _mk_ubf(l[1], l[2], st % 4); d_ = _mk_ubf(l[3], l[4], (st // 4) % 4)
+        h.set_entity_ids(s_, d_) if st < 16 else h.set_entity_ids(source_entity_id=s_, dest_entity_id=d_); return []
+    if k == 5 and len(l) >= 3:
+        h.transaction_seq_num = _mk_ubf(l[1], l[2], _get(l, 3)); return []
+    if k in _FLAG_ATTR and len(l) >= 2:
+        prop, attr, cls = _FLAG_ATTR[k]
+        if _get(l, 2) == 1:
+            setattr(h.pdu_conf, attr, _e(cls, l[1]))
+        else:
+            setattr(h, prop, _e(cls, l[1]))
+        return []
+    if k == 11 and len(l) >= 3:
+        if l[1] not in (0, 1, 2):
+            raise RuntimeError("bad field")
+        f = getattr(h if _get(l, 3) == 0 else h.pdu_conf, _FIELD_ATTR[l[1]])
+        f.value = l[2]; return []
+    if k == 12 and len(l) >= 3:
+        if l[1] not in (0, 1, 2):
+            raise RuntimeError("bad field")
+        f = getattr(h if l[2] & 2 == 0 else h.pdu_conf, _FIELD_ATTR[l[1]])
+        f.value = bytearray(l[3:]) if l[2] & 1 else bytes(l[3:]); return []
+    if k == 13 and len(l) >= 4:
+        u = _mk_ubf(l[2], l[3], _get(l, 4))
+        if l[1] not in (0, 1, 2):
+            raise RuntimeError("bad field")
+        setattr(h.pdu_conf, _FIELD_ATTR[l[1]], u); return []
+    if k == 14:
+        # a second configuration object with the given values (a copy that is then filled in: the live-object probe
+        # treats PduConfig objects constructed by an adapter as the caller's inputs of a constructor)
+        ids, flags = (l[1:7] + [0] * 6)[:6], (l[7:12] + [0] * 5)[:5]
+        src, dst, seq = _mk_ubf(ids[0], ids[1]), _mk_ubf(ids[2], ids[3]), _mk_ubf(ids[4], ids[5])
+        c = copy.copy(h.pdu_conf)
+        c.source_entity_id, c.dest_entity_id, c.transaction_seq_num = src, dst, seq
+        c.trans_mode, c.file_flag, c.crc_flag = _e(D.TransmissionMode, flags[0]), _e(D.LargeFileFlag, flags[1]), _e(D.CrcFlag, flags[2])
+        c.direction, c.seg_ctrl = _e(D.Direction, flags[3]), _e(D.SegmentationControl, flags[4])
+        h.pdu_conf = c; return []
+    if k == 15:
+        return list(h.pack())
+    if k == 16:
+        return [h.pdu_conf.header_len()]
+    raise RuntimeError("bad op")
+
+
+def run_history(ops, apply, state):
+    """apply every operation; after each: [0] | [1, class], every view of the object, what the call returned"""
+    out = []
+    for l in ops:
+        try:
+            r = apply(l); out.append([0])
+        except Exception as e:  # noqa
+            out.append([1, core.canon_code(core.classify_exception(e))]); r = []
+        out += state()
+        out.append(list(r))
+    return out
+
+
+def scramble(buf):
+    """the caller re-uses its receive buffer: every octet changes"""
+    for i in range(len(buf)):
+        buf[i] ^= 0xFF
+
+
+def _conf_view(c):
+    return [[c.source_entity_id.value, c.source_entity_id.byte_len, c.dest_entity_id.value, c.dest_entity_id.byte_len,
+             c.transaction_seq_num.value, c.transaction_seq_num.byte_len],
+            [int(c.trans_mode), int(c.file_flag), int(c.crc_flag), int(c.direction), int(c.seg_ctrl)]]
+
+
 def impl(op, a):
+    if op == 1212:
+        conf = _conf_kind(a[3][0] if a[3] else 0, a[0], a[1])
+        t, meta, dlen = a[2]
+        h = PduHeader(pdu_type=_e(D.PduType, t), segment_metadata_flag=_e(D.SegmentMetadataFlag, meta),
+                      pdu_data_field_len=dlen, pdu_conf=conf)
+        return (_hstate(h) + _conf_view(conf) + run_history(a[4:], lambda l: apply_hdr_op(h, l), lambda: _hstate(h))
+                + _conf_view(conf))
+    if op == 1213:
+        if a[1] and a[1][0]:
+            buf = bytearray(a[0])
+            h = PduHeader.unpack(buf)
+            s0 = _hstate(h)
+            scramble(buf)
+            ok = int(_hstate(h) == s0)
+        else:
+            h = PduHeader.unpack(bytes(a[0])); ok = 1
+        conf = h.pdu_conf
+        out = [[ok]] + _hstate(h) + run_history(a[2:], lambda l: apply_hdr_op(h, l), lambda: _hstate(h)) + _conf_view(conf)
+        return out + _hstate(PduHeader.unpack(bytes(a[0])))       # the same octets decoded once more
     if op == 1200:
         return _fields(_hdr(a[0], a[1], a[2]))
     if op == 1201:
@@ -168,6 +308,105 @@ def _rand_valid(rng, sl=None, ql=None):
     flags = [rng.randrange(2) for _ in range(5)]
     hd = [rng.randrange(2), rng.randrange(2), rng.choice(LENS + [rng.randrange(65536)])]
     return ids, flags, hd
+
+
+# ---- what every operation is documented to do, on a plain dict (used by the generator to keep
+#      histories meaningful and by the oracle to judge every step on the implementation's own answers)
+def hdr_expect(st, l):
+    """st = {"hd": [type, meta, dlen], "ids": [...6], "flags": [...5]} -> (state afterwards, verdict)
+    verdict: "ok" (must succeed), "refuse" (must raise ValueError, nothing changes), "any" (either)"""
+    n = {"hd": list(st["hd"]), "ids": list(st["ids"]), "flags": list(st["flags"])}
+    k = l[0]
+    if k == 1: n["hd"][0] = l[1]
+    elif k == 2: n["hd"][1] = l[1]
+    elif k == 3:
+        if l[1] > 65535: return st, "refuse"
+        n["hd"][2] = l[1]
+        if l[1] < 0: return n, "any"
+    elif k == 4:
+        if not (ubf_ok(l[1], l[2]) and ubf_ok(l[3], l[4])) or l[2] != l[4]: return st, "refuse"
+        n["ids"][0:4] = l[1:5]
+    elif k == 5:
+        if not ubf_ok(l[1], l[2]): return st, "refuse"
+        n["ids"][4:6] = l[1:3]
+    elif 6 <= k <= 10:
+        n["flags"][{6: 1, 7: 2, 8: 0, 9: 3, 10: 4}[k]] = l[1]
+    elif k == 11:
+        w = st["ids"][2 * l[1] + 1]
+        if not 0 <= l[2] < 256 ** w: return st, "refuse"
+        n["ids"][2 * l[1]] = l[2]
+    elif k == 12:
+        w = st["ids"][2 * l[1] + 1]
+        b = l[3:]
+        if len(b) < w: return st, "refuse"
+        n["ids"][2 * l[1]] = int.from_bytes(bytes(b[:w]), "big")
+    elif k == 13:
+        if not ubf_ok(l[2], l[3]): return st, "refuse"
+        n["ids"][2 * l[1]:2 * l[1] + 2] = l[2:4]
+    elif k == 14:
+        ids, flags = l[1:7], l[7:12]
+        if not (ubf_ok(ids[0], ids[1]) and ubf_ok(ids[2], ids[3]) and ubf_ok(ids[4], ids[5])): return st, "refuse"
+        n["ids"], n["flags"] = list(ids), list(flags)
+    elif k in (15, 16):
+        return st, ("ok" if k == 16 or valid_args(st["ids"], st["flags"], st["hd"]) else "any")
+    return n, "ok"
+
+
+def patterns(w):
+    """values of a w-octet field with special octet patterns"""
+    return bnd(w) + [int.from_bytes(bytes(x), "big") for x in
+                     ([0x80] * w, [0xFF] + [0] * (w - 1), [0] * (w - 1) + [0xFF], [0x7F] + [0xFF] * (w - 1), [0x80] + [0] * (w - 1),
+                      [0] * (w - 1) + [0x80])]
+
+
+def rand_hdr_op(rng, st):
+    """one header operation that makes sense in state st (mostly acceptable, sometimes to be refused)"""
+    ids = st["ids"]
+    k = rng.choice([1, 2, 3, 3, 4, 4, 5, 6, 7, 8, 9, 10, 11, 11, 11, 12, 12, 12, 12, 13, 14, 15, 15, 16])
+    if k in (1, 2):
+        return [k, rng.choice([0, 1, 0, 1, 0, 1, 2, 3, -1])]
+    if k == 3:
+        return [3, rng.choice(LENS + [rng.randrange(65536), 65534, 65536, 2 ** 16 + 255, 2 ** 32, 511, 512, 1024])]
+    if k == 4:
+        sl = rng.choice(WIDTHS + (ids[1],) * 3 + (0,))
+        dl = sl if rng.random() < 0.85 else rng.choice((0,) + WIDTHS)
+        sv = rng.choice(patterns(sl) + [rng.randrange(256 ** sl)]) if sl else 0
+        dv = rng.choice(patterns(dl) + [rng.randrange(256 ** dl)]) if dl else 0
+        if rng.random() < 0.08: sv = 256 ** sl
+        return [4, sv, sl, dv, dl, rng.randrange(32)]
+    if k == 5:
+        ql = rng.choice(WIDTHS + (0, 3))
+        return [5, rng.choice(patterns(ql) + [256 ** ql]) if ql else 0, ql, rng.randrange(4)]
+    if 6 <= k <= 10:
+        return [k, rng.choice([0, 1, 0, 1, 0, 1, 2, 255, -1]), rng.randrange(2)]
+    if k == 11:
+        which = rng.randrange(3); w = ids[2 * which + 1]
+        v = rng.choice(patterns(w) + [rng.randrange(256 ** w), 256 ** w, -1, ids[2 * which]]) if w in WIDTHS else rng.choice([0, 1])
+        return [11, which, v, rng.randrange(2)]
+    if k == 12:
+        which = rng.randrange(3); w = ids[2 * which + 1] if ids[2 * which + 1] in (0,) + WIDTHS else 1
+        n = rng.choice([w, w, w + 1, w + 2, w + 5, 2 * w, max(0, w - 1), 0, 16, 300, 512, 513])
+        b = [rng.choice([0, 0x80, 0xFF, rng.randrange(256)]) for _ in range(n)]
+        return [12, which, rng.randrange(4)] + b
+    if k == 13:
+        which = rng.randrange(3)
+        w = ids[2 * which + 1] if rng.random() < 0.7 else rng.choice(WIDTHS)
+        return [13, which, rng.choice(patterns(w)) if w in WIDTHS else 0, w, rng.randrange(4)]
+    if k == 14:
+        i2, f2, _ = _rand_valid(rng)
+        if rng.random() < 0.1: i2[0] = 256 ** i2[1]
+        return [14] + i2 + f2
+    return [k]
+
+
+def rand_hdr_history(rng, st, n):
+    ops = []
+    while len(ops) < n:
+        l = rand_hdr_op(rng, st)
+        for _ in range(2 if rng.random() < 0.15 else 1):      # the same assignment twice
+            ops.append(l)
+            st, _ = hdr_expect(st, l)
+    return ops + [[15], [15]], st
 
 
 def streams(tier, rng):
@@ -317,6 +556,66 @@ def streams(tier, rng):
             for _ in range(4):
                 cases.append((1210, [[bl], [rng.choice([0, 1, 0x7F, 0x80, 0xFF, rng.randrange(256)]) for _ in range(n)]]))
     yield "bytefield_from_bytes", "exact", cases
+    # 10. operation histories on one header object (every setter, sub-object value setters by int and by
+    #     octets of any length, plain attribute assignment, refused assignments, pack in between, pack twice):
+    #     constructor start (explicit / default() / empty() configuration) and unpack start (bytes, or a
+    #     bytearray that the caller overwrites afterwards)
+    cases = []
+    for _ in range(12000 if big else 1800):
+        ids, flags, hd = _rand_valid(rng)
+        kind = rng.choice([0, 0, 0, 0, 1, 2])
+        st = {"hd": hd, "ids": ids, "flags": flags}
+        if kind == 1: st = {"hd": hd, "ids": [0, 1, 0, 1, 0, 1], "flags": [0, 0, 0, 0, 0]}
+        if kind == 2: st = {"hd": hd, "ids": [0, 0, 0, 0, 0, 0], "flags": [0, 0, 0, 0, 0]}
+        ops, _ = rand_hdr_history(rng, st, rng.randrange(0, 11))
+        cases.append((1212, [ids, flags, hd, [kind]] + ops))
+    for _ in range(6000 if big else 900):
+        ids, flags, hd = _rand_valid(rng)
+        p = layout(ids, flags, hd)
+        ops, _ = rand_hdr_history(rng, {"hd": hd, "ids": ids, "flags": flags}, rng.randrange(0, 9))
+        sfx = [rng.randrange(256) for _ in range(rng.choice([0, 0, 3, 30, 600]))]
+        cases.append((1213, [p + sfx, [rng.randrange(2)]] + ops))
+    yield "histories_setters_subobjects", "exact", cases
+    # 11. sizes: every data-field length 0..1100 and +-8 around every multiple of 256 up to the limit through
+    #     constructor + pack, the length setter and unpack; buffers of every size 0..1100 (+ 4 KiB, 64 KiB) through
+    #     unpack / header_len_from_raw / verify_length_and_checksum (with and without CRC)
+    cases = []
+    dl_sweep = sorted(set(range(0, 1101)) | {m + d for m in range(256, 65537, 256) for d in range(-8, 9) if 0 <= m + d <= 65535 + 8})
+    for n in dl_sweep:
+        ids, flags, hd = _rand_valid(rng); hd[2] = n
+        cases.append((1201, [ids, flags, hd]))
+        if n <= 65535:
+            cases.append((1202, [layout(ids, flags, hd)]))
+        i2, f2, h2 = _rand_valid(rng)
+        cases.append((1206, [i2, f2, h2, [n]]))
+    for n in list(range(0, 1101)) + [4095, 4096, 4097, 65535, 65536]:
+        ids, flags, hd = _rand_valid(rng)
+        p = layout(ids, flags, hd)
+        d = (p + [rng.randrange(256) for _ in range(n)])[:n]
+        cases.append((1202, [d])); cases.append((1204, [d]))
+        # a whole PDU of n octets behind the header: verify_length_and_checksum
+        if n <= 1100 or rng.random() < 0.5:
+            flags = list(flags)
+            if n < 2: flags[2] = 0
+            hd = [hd[0], hd[1], min(n, 65535)]
+            p = layout(ids, flags, hd)
+            body = [rng.randrange(256) for _ in range(hd[2])]
+            if flags[2] == 1:
+                c = crc16_bitwise(p + body[:-2]); body[-2:] = [c >> 8, c & 0xFF]
+            cases.append((1208, [p + body]))
+            if body:
+                cases.append((1208, [p + body[:-1]]))
+    yield "exh_sizes_sweep", "exact", cases
+    # 12. several extremes at once: widest IDs and sequence number, all-ones / 0x80.. / 0xFF00.. values, every flag
+    #     set or clear, data-field length 0 / 65535 -- all combinations
+    cases = []
+    for sl, ql in itertools.product(WIDTHS, WIDTHS):
+        for sv, dv, qv in itertools.product(patterns(sl)[2:6], patterns(sl)[2:5], patterns(ql)[2:8]):
+            for fl in (0, 1):
+                for dlen in (0, 65535):
+                    a = [[sv, sl, dv, sl, qv, ql], [fl] * 5, [fl, fl, dlen]]
+                    cases.append((1201, a)); cases.append((1203, [layout(*a) + [0xFF] * 3]))
+    yield "extremes_combined", "exact", cases
     # 9. garbage
     cases = []
     for _ in range(30000 if big else 4000):
@@ -363,11 +662,137 @@ def _decode_expect(b):
     return None, reasons
 
 
+def be(v, w):
+    return list(v.to_bytes(w, "big"))
+
+
+def check_hdr_state(st, flat, idoct, what):
+    """the views reported by the implementation (flat: 16 integers, idoct: octets of the three byte fields) against
+    the state st the operations so far are documented to produce"""
+    exp = st["hd"] + st["ids"] + st["flags"]
+    if flat[:14] != exp:
+        return ("C05/PduHeader.history/setter-effect", "%s: views %s, expected %s" % (what, flat[:14], exp))
+    ids = st["ids"]
+    if all(ubf_ok(ids[i], ids[i + 1]) for i in (0, 2, 4)):
+        eo = be(ids[0], ids[1]) + be(ids[4], ids[5]) + be(ids[2], ids[3])
+        if idoct != eo:
+            return ("C05/UnsignedByteField.as_bytes/stale", "%s: the byte fields hold the octets %s, their values/widths %s encode to %s" % (what, idoct, ids, eo))
+        if ids[1] == ids[3]:
+            hl = 4 + 2 * ids[1] + ids[5]
+            if flat[14:] != [hl, hl + st["hd"][2]]:
+                return ("C05/PduHeader.header_len", "%s: header_len/packet_len %s, expected %s" % (what, flat[14:], [hl, hl + st["hd"][2]]))
+    return None
+
+
+def check_hdr_history(st, steps, ops, what="PduHeader"):
+    """steps: per operation (status, flat state, id octets, returned) as reported by the implementation"""
+    prev_pack = None
+    for i, (l, (status, flat, idoct, out)) in enumerate(zip(ops, steps)):
+        st2, verdict = hdr_expect(st, l)
+        where = "%s operation %d %s" % (what, i, l[:8])
+        if status[0] == 1:
+            if status[1] in core.UNDOCUMENTED or status[1] == 99:
+                return st, ("C05/PduHeader.history/undocumented-error", "%s raised %s" % (where, core.ERR_NAMES.get(status[1], status[1])))
+            if verdict == "ok":
+                return st, ("C05/PduHeader.history/refuses-valid", "%s was refused" % where)
+            r = check_hdr_state(st, flat, idoct, where + " (refused)")
+            if r:
+                return st, ("C05/PduHeader.history/refused-op-changed-state", r[1])
+            prev_pack = None
+            continue
+        if verdict == "refuse":
+            return st, ("C05/PduHeader.history/not-refused", "%s was accepted" % where)
+        st = st2
+        r = check_hdr_state(st, flat, idoct, where)
+        if r:
+            return st, r
+        if l[0] == 15:
+            if valid_args(st["ids"], st["flags"], st["hd"]):
+                exp = layout(st["ids"], st["flags"], st["hd"])
+                if out != exp:
+                    return st, ("C05/PduHeader.pack/layout", "%s: packed %s, the standard's layout of the current values is %s" % (where, out, exp))
+            if prev_pack is not None and out != prev_pack:
+                return st, ("C05/PduHeader.pack/not-repeatable", "%s: two packs in a row differ" % where)
+            prev_pack = out
+        else:
+            prev_pack = None
+        if l[0] == 16 and all(ubf_ok(st["ids"][i], st["ids"][i + 1]) for i in (0, 2, 4)):
+            if out != [4 + st["ids"][1] + st["ids"][3] + st["ids"][5]]:
+                return st, ("C05/PduConfig.header_len", "%s -> %s" % (where, out))
+    return st, None
+
+
+def alias_probe(unpack, view, octets, ref):
+    """decoding from a bytearray the caller overwrites afterwards must give what decoding from bytes gave (ref), and it
+    must stay that way"""
+    buf = bytearray(octets)
+    try:
+        o = unpack(buf)
+    except Exception:  # noqa
+        return "the octets are accepted as bytes and refused as bytearray"
+    v0 = view(o)
+    scramble(buf)
+    try:
+        buf.extend(b"\x00" * 8)
+    except BufferError:
+        return "the decoded object keeps a view of the caller's bytearray (the caller can no longer resize its buffer)"
+    v1 = view(o)
+    if v0 != ref:
+        return "decoded from a bytearray: %s, from bytes: %s" % (str(v0)[:160], str(ref)[:160])
+    if v1 != v0:
+        return "after the caller overwrote its buffer the decoded object changed from %s to %s" % (str(v0)[:160], str(v1)[:160])
+    return None
+
+
 def oracle(case, ires, sres):
     """The property itself, evaluated on the implementation's observable behaviour."""
     op, a = case
     err = ires[0][0] == 1
     code = ires[0][1] if err else None
+    if op in (1212, 1213):
+        ops = a[4:] if op == 1212 else a[2:]
+        if op == 1212:
+            kind = a[3][0] if a[3] else 0
+            ids, flags, hd = a[0], a[1], a[2]
+            if kind == 1: ids, flags = [0, 1, 0, 1, 0, 1], [0, 0, 0, 0, 0]
+            if kind == 2: ids, flags = [0, 0, 0, 0, 0, 0], [0, 0, 0, 0, 0]
+            if err:
+                if all(ubf_ok(ids[i], ids[i + 1]) for i in (0, 2, 4)) and ids[1] == ids[3] and hd[2] <= 65535:
+                    return ("C05/PduHeader/refuses-valid", "constructor refused %s: %s" % (a[:4], ires))
+                return None
+            st = {"hd": list(hd), "ids": list(ids), "flags": list(flags)}
+            r = check_hdr_state(st, ires[1], ires[2], "after construction")
+            if r:
+                return r
+            if ires[3:5] != [list(ids), list(flags)]:
+                return ("C11/PduHeader.__init__/caller-conf-modified", "caller's PduConfig %s after construction: %s" % ([ids, flags], ires[3:5]))
+            body = ires[5:-2]
+        else:
+            b = a[0]
+            hl, reasons = _decode_expect(b)
+            if hl is None:
+                if not err or code not in reasons:
+                    return ("C05/PduHeader.unpack/refusal", "octets %s: expected refusal with one of %s, got %s" % (b[:8], sorted(reasons), ires))
+                return None
+            if err:
+                return ("C05/PduHeader.unpack/refuses-valid", "well-formed header %s refused: %s" % (b[:hl], ires))
+            if ires[1] != [1]:
+                return ("C05/PduHeader.unpack/aliases-input-buffer", "the header decoded from a bytearray changed when the caller overwrote that buffer")
+            flat = ires[2]
+            st = {"hd": flat[0:3], "ids": flat[3:9], "flags": flat[9:14]}
+            if not valid_args(st["ids"], st["flags"], st["hd"]) or layout(st["ids"], st["flags"], st["hd"]) != b[:hl]:
+                return ("C05/PduHeader.unpack/fields", "decoded fields %s do not encode to %s" % (flat, b[:hl]))
+            r = check_hdr_state(st, flat, ires[3], "after unpack")
+            if r:
+                return r
+            if ires[-2:] != ires[2:4]:
+                return ("C05/PduHeader.unpack/second-decode-differs", "the same octets decoded again after the first header was edited: %s, first time %s" % (ires[-2:], ires[2:4]))
+            body = ires[4:-4]
+        if len(body) != 4 * len(ops):
+            return ("C05/PduHeader.history/shape", "result has %d lines for %d operations" % (len(body), len(ops)))
+        steps = [tuple(body[4 * i:4 * i + 4]) for i in range(len(ops))]
+        st, r = check_hdr_history(st, steps, ops)
+        return r
     if op in (1200, 1201):
         ids, flags, hd = a
         sv, sl, dv, dl, qv, ql = ids
@@ -412,6 +837,9 @@ def oracle(case, ires, sres):
             return ("C05/PduHeader.unpack/fields", "decoded fields %s do not encode to %s" % (ires[1:4], b[:hl]))
         if lens != [hl, hl + hd[2]]:
             return ("C05/PduHeader.header_len", "header_len/packet_len %s, expected %s" % (lens, [hl, hl + hd[2]]))
+        r = alias_probe(PduHeader.unpack, lambda h: _fields(h) + [_hstate(h)[1]], b, ires[1:] + [be(ids[0], ids[1]) + be(ids[4], ids[5]) + be(ids[2], ids[3])])
+        if r:
+            return ("C05/PduHeader.unpack/aliases-input-buffer", r)
         return None
     if op == 1204:
         b = a[0]
